@@ -41,8 +41,10 @@ def parseFrame (s : String) : Option SFrame :=
   match s.splitOn ":" with
   | ["sup"] => some .supported
   | ["rdy"] => some .ready
-  | ["chal"] => some .authChallenge
-  | ["succ"] => some .authSuccess
+  | ["chal"] => some (.authChallenge [0x78])      -- the harness's default challenge payload "x"
+  | ["succ"] => some (.authSuccess [])            -- null bytes
+  | ["chal", h] => (parseHex h).map .authChallenge
+  | ["succ", h] => (parseHex h).map .authSuccess
   | ["err"] => some .error
   | ["other"] => some .other
   | ["auth", h] => (parseHex h).map .authenticate
@@ -51,14 +53,57 @@ def parseFrame (s : String) : Option SFrame :=
 def parseList (s : String) : Option (List (List UInt8)) :=
   if s == "none" then some [] else (s.splitOn ",").mapM parseHex
 
-/-- `none` or `pw:<user>:<pass>:<allowed>` -/
-def parseAuth (s : String) : Option (Option PwAuth) :=
+/-- `<resp>.<fail><last>` -/
+def parseRound (s : String) : Option Round :=
+  match s.splitOn "." with
+  | [h, fl] => match parseHex h, fl.toList with
+    | some r, [f, l] => some { resp := r, fail := f == '1', last := l == '1' }
+    | _, _ => none
+  | _ => none
+
+/-- `none`, `pw:<user>:<pass>:<allowed>` or `cu:<round>,<round>…|none:<successFails>` -/
+def parseAuth (s : String) : Option (Option AuthImpl) :=
   match s.splitOn ":" with
   | ["none"] => some none
   | ["pw", u, p, a] => match parseHex u, parseHex p, parseList a with
-    | some u, some p, some a => some (some { user := u, pass := p, allowed := a })
+    | some u, some p, some a => some (some (.pw { user := u, pass := p, allowed := a }))
     | _, _, _ => none
+  | ["cu", rs, sf] => match (if rs == "none" then some [] else (rs.splitOn ",").mapM parseRound), parseBool sf with
+    | some rs, some sf => some (some (.custom rs sf))
+    | _, _ => none
   | _ => none
+
+/-- provider result: `nil`, `err`, `<auth>`, `<auth>+err` -/
+def parseProvRes (s : String) : Option ProvRes :=
+  if s == "nil" then some (.auth none)
+  else if s == "err" then some (.err none)
+  else match s.splitOn "+" with
+    | [a] => (parseAuth a).map .auth
+    | [a, "err"] => (parseAuth a).map .err
+    | _ => none
+
+/-- `-` (no provider) or `<host>=<res>/…/*=<res>`; hosts without an entry get (nil, nil) -/
+def parseProvider (s : String) : Option (Option (Nat → ProvRes)) :=
+  if s == "-" then some none else do
+    let es ← (s.splitOn "/").mapM (fun e => match e.splitOn "=" with
+      | [k, r] => do
+        let r ← parseProvRes r
+        if k == "*" then pure (none, r) else do
+          let k ← k.toNat?
+          pure (some k, r)
+      | _ => none)
+    let dflt := match es.find? (fun e => e.1.isNone) with | some e => e.2 | none => ProvRes.auth none
+    pure (some (fun h => match es.find? (fun e => e.1 == some h) with | some e => e.2 | none => dflt))
+
+def dropPrefix (pre s : String) : Option String :=
+  if s.startsWith pre then some (s.drop pre.length).toString else none
+
+/-- `host=<k> static=<auth> prov=<provider>` -/
+def parseConn (h st pv : String) : Option (Nat × AuthCfg) := do
+  let h ← (← dropPrefix "host=" h).toNat?
+  let st ← parseAuth (← dropPrefix "static=" st)
+  let pv ← parseProvider (← dropPrefix "prov=" pv)
+  pure (h, { static := st, provider := pv })
 
 def showSent : Sent → String
   | .options => "options"
@@ -73,7 +118,32 @@ def showOutcome : Outcome → String
   | .errUnapproved => "err:unapproved"
   | .errAuthFrame => "err:auth-frame"
   | .errClosed => "err:closed"
+  | .errAuthenticator => "err:authenticator"
+  | .errAuthSuccess => "err:auth-success"
+  | .errProvider => "err:provider"
+  | .errBoth => "err:both"
   | .crash => "crash"
+
+def showCall : Call → String
+  | .challenge r => "c:" ++ toHex r
+  | .success d => "s:" ++ toHex d
+
+def showList (l : List String) : String := if l.isEmpty then "-" else ",".intercalate l
+
+/-- only caller-supplied authenticators record the calls made on them -/
+def isCustom : Option (Option AuthImpl) → Bool
+  | some (some (.custom _ _)) => true
+  | _ => false
+
+/-- canonical rendering of a connection attempt; a process-fatal outcome is rendered `crash:<function> …` -/
+def showTrace (t : Trace) (custom withProv : Bool) : String :=
+  let body := "sent=" ++ showList (t.sent.map showSent) ++
+    " calls=" ++ (if custom then showList (t.calls.map showCall) else "-") ++
+    (if withProv then " prov=" ++ showList (t.provCalls.map toString) else "")
+  if t.outcome = .crash then "crash:authenticateHandshake " ++ body
+  else body ++ " outcome=" ++ showOutcome t.outcome
+
+def credSent (t : Trace) : Bool := t.sent.any (fun x => match x with | .authResponse _ => true | _ => false)
 
 def parseDocCfg (s : String) : Option (Option Bool) :=
   match s with
@@ -85,7 +155,9 @@ def parseDocCfg (s : String) : Option (Option Bool) :=
   join <host> <port>                         → address (net.JoinHostPort as used by HostnameAndPort)
   approve <class> <allowed…|none>            → true|false
   challenge <user> <pass> <allowed> <class>  → token | err
-  hs <auth> <frames…>                        → sent=… outcome=…
+  hs <auth> <frames…>                        → sent=… calls=… outcome=…   (process-fatal: crash:<function> sent=… calls=…)
+  hsx host=<k> static=<auth> prov=<provider> <frames…>        → sent=… calls=… prov=… outcome=…  (Conn.init + start-up)
+  newsession host=<k> static=<auth> prov=<provider> <frames…> → dials=… post=… sent=… (NewSession with a scripted dialer)
   doc <file> <nil|false|true> <false|true>   → verify | noverify | missing (documented table) -/
 def step (_ : Unit) (ws : List String) : Unit × String :=
   ((), match ws with
@@ -119,9 +191,15 @@ def step (_ : Unit) (ws : List String) : Unit × String :=
       | none => "err"
     | _, _, _, _ => "bad-op"
   | "hs" :: a :: fs => match parseAuth a, fs.mapM parseFrame with
-    | some a, some fs =>
-      let r := handshake a fs
-      "sent=" ++ ",".intercalate (r.1.map showSent) ++ " outcome=" ++ showOutcome r.2
+    | some a, some fs => showTrace (handshake a fs) (isCustom (some a)) false
+    | _, _ => "bad-op"
+  | "hsx" :: h :: st :: pv :: fs => match parseConn h st pv, fs.mapM parseFrame with
+    | some (h, cfg), some fs => showTrace (connect cfg h fs) (isCustom (Spec.credentials cfg h)) true
+    | _, _ => "bad-op"
+  | "newsession" :: h :: st :: pv :: fs => match parseConn h st pv, fs.mapM parseFrame with
+    | some (h, cfg), some fs =>
+      let r := newSession cfg h fs
+      s!"dials={r.2} post={bit (r.1.outcome = .ready)} " ++ showTrace r.1 (isCustom (Spec.credentials cfg h)) true
     | _, _ => "bad-op"
   -- property-oracle ops (spec-backed): the answer is what the PROPERTY demands; the theorems of Proofs/C20.lean
   -- say the model gives the same
@@ -147,13 +225,30 @@ def step (_ : Unit) (ws : List String) : Unit × String :=
   | "hsnoauth" :: fs => match fs.mapM parseFrame with                    -- C20_no_auth_no_session
     | some fs =>
       let r := handshake none fs
-      (if r.2 = .ready then "ready" else "refused") ++ " credentials-sent=" ++
-        bit (r.1.any (fun x => match x with | .authResponse _ => true | _ => false))
+      (if r.outcome = .ready then "ready" else "refused") ++ " credentials-sent=" ++ bit (credSent r)
     | none => "bad-op"
+  -- C20_no_credentials_no_session: configurations WITHOUT credentials for the dialled host (nothing configured, or a
+  -- provider that hands out no authenticator for this host); the answer is the property's demand
+  | "nocred" :: h :: st :: pv :: fs => match parseConn h st pv, fs.mapM parseFrame with
+    | some (h, cfg), some fs =>
+      if cfg.static.isSome || Spec.credentials cfg h != some none then "bad-op" else
+      let ready := match fs with | .supported :: .ready :: _ => true | _ => false
+      (if ready then "ready" else "refused") ++ " credentials-sent=0 challenge-calls=0"
+    | _, _ => "bad-op"
+  -- C20_credentials_per_host: which credentials leave the client for this host and class (the specification side:
+  -- Spec.credentials + the approved list + the PLAIN token)
+  | ["disclose2", h, st, pv, c] => match parseConn h st pv, parseHex c with
+    | some (h, cfg), some c =>
+      if cfg.static.isSome && cfg.provider.isSome then "bad-op" else
+      match Spec.credentials cfg h with
+      | some (some (.pw p)) => if approve c p.allowed then "token:" ++ toHex (plainToken p.user p.pass) else "none"
+      | some (some (.custom _ _)) => "bad-op"
+      | _ => "none"
+    | _, _ => "bad-op"
   | ["disclose", a, c] => match parseAuth a, parseHex c with             -- C20_only_approved, C20_plain_token
     | some a, some c =>
-      let r := handshake a [.supported, .authenticate c, .authSuccess]
-      match r.1.filterMap (fun x => match x with | .authResponse t => some t | _ => none) with
+      let r := handshake a [.supported, .authenticate c, .authSuccess []]
+      match r.sent.filterMap (fun x => match x with | .authResponse t => some t | _ => none) with
       | [] => "none"
       | t :: _ => "token:" ++ toHex t
     | _, _ => "bad-op"
